@@ -70,17 +70,29 @@ def snapshot(arr):
     return (a.shape, str(a.dtype), a.tobytes())
 
 
+class _GradWithSpread(np.ndarray):
+    """ndarray carrying `spread`: the largest deviation of any step size tried from the accepted estimate (per component)."""
+
+
 def num_grad_stable(f, x, h, rtol=1e-6, shrink=8.0, tries=3):
     """Self-validating numerical gradient: Richardson estimates at steps h, h/8, h/64...
     are compared; the first consecutive pair agreeing to `rtol` (relative to the largest
     component) is accepted.  Returns (gradient, True) or (last estimate, False) when the
-    function has structure below the smallest step tried (case is then not judged)."""
-    prev = num_grad(f, x, h)
+    function has structure below the smallest step tried (case is then not judged).
+    The accepted gradient carries `.spread`, the largest deviation of the estimates at the other
+    steps tried from it: two steps can agree with each other and still differ from the larger ones
+    (fine structure of the function, rounding in its evaluation), and a comparison with an analytic
+    gradient should not be stricter than that."""
+    ests = [num_grad(f, x, h)]
     for _ in range(tries):
         h = np.asarray(h, dtype=float) / shrink
-        cur = num_grad(f, x, h)
+        ests.append(num_grad(f, x, h))
+        cur, prev = ests[-1], ests[-2]
         scale = max(np.abs(cur).max(), np.abs(prev).max(), 1e-300)
         if np.abs(cur - prev).max() <= rtol * scale:
-            return cur, True
-        prev = cur
-    return prev, False
+            out = np.asarray(cur, float).view(_GradWithSpread)
+            out.spread = np.max([np.abs(e - cur) for e in ests], axis=0)
+            return out, True
+    out = np.asarray(ests[-1], float).view(_GradWithSpread)
+    out.spread = np.max([np.abs(e - ests[-1]) for e in ests], axis=0)
+    return out, False
